@@ -1,12 +1,15 @@
 // C06 (type-vector layer): op scripts over the real SemTypeOps::{intersect, union, diff, complement} on scalar types
 // (the per-tag merge `SubTypePairIterator` and the literal-set subtypes of subtype.rs).
 //   request: (sem-ops (<atom>…) (<step>…))   atom: string|number|boolean|null|undefined|unknown|never|optional|(s "a")|(n 1)|(b true)
+//            |(o k)|(l k)   — the k-th object / list atom (a one-node diagram; the operations never look inside an atom, so a
+//            sample "object" is a truth assignment to the three object atoms, a sample "list" one to the two list atoms)
 //            step: (A k) | (U i j) | (I i j) | (D i j) | (C i)
 //   reply:   (r <canonical type vector>…)        one per step
 //   oracle:  membership of 14 sample values in every result = the Boolean combination of the operands' memberships
 use crate::sx::*;
 use beff_core::ast::json::N;
 use beff_core::ast::runtype::{TplLitType, TplLitTypeItem};
+use beff_core::subtyping::bdd::{Atom, Bdd};
 use beff_core::subtyping::semtype::{SemType, SemTypeContext, SemTypeOps};
 use beff_core::subtyping::subtype::{
     NumberRepresentationOrFormat, ProperSubtype, StringLitOrFormat, SubTypeTag, VoidUndefinedSubtype,
@@ -20,7 +23,8 @@ pub fn gen_script(rng: &mut Rng, steps: usize) -> Sx {
     let natoms = 2 + rng.below(6);
     for _ in 0..natoms {
         atoms.push(match rng.below(10) {
-            0 | 1 | 2 => atom(*rng.pick(ATOMS)),
+            0 | 1 => atom(*rng.pick(ATOMS)),
+            2 => if rng.chance(1, 3) { list(vec![atom("l"), num(rng.below(2))]) } else { list(vec![atom("o"), num(rng.below(3))]) },
             3 | 4 | 5 => list(vec![atom("s"), st(*rng.pick(&["a", "b", "c"]))]),
             6 | 7 | 8 => list(vec![atom("n"), num(rng.below(3))]),
             _ => list(vec![atom("b"), atom(if rng.chance(1, 2) { "true" } else { "false" })]),
@@ -42,6 +46,25 @@ pub fn gen_script(rng: &mut Rng, steps: usize) -> Sx {
             let j = natoms + rng.below(n - natoms);
             ops.push(list(vec![atom(if rng.chance(2, 3) { "I" } else { "D" }), num(i), num(j)]));
         }
+    }
+    // one script in five carries object / list atoms through `(A | Not<A>) & (B | Not<B>)`-like steps: diagrams that collapse
+    // to a leaf (everything / nothing of the tag) inside a vector that also has whole and absent tags
+    if rng.chance(1, 5) {
+        let base = atoms.len();
+        let structural: Vec<Sx> = if rng.chance(1, 3) { vec![list(vec![atom("l"), num(0)]), list(vec![atom("l"), num(1)])] } else { vec![list(vec![atom("o"), num(rng.below(3))]), list(vec![atom("o"), num(rng.below(3))])] };
+        for (k, a) in structural.into_iter().enumerate() {
+            atoms.push(a);
+            ops.push(list(vec![atom("A"), num(base + k)]));
+        }
+        let (ia, ib) = (ops.len() - 2, ops.len() - 1);
+        ops.push(list(vec![atom("C"), num(ia)]));
+        ops.push(list(vec![atom("C"), num(ib)]));
+        let (na, nb) = (ops.len() - 2, ops.len() - 1);
+        ops.push(list(vec![atom("U"), num(ia), num(na)]));
+        ops.push(list(vec![atom("U"), num(ib), num(nb)]));
+        let (ua, ub) = (ops.len() - 2, ops.len() - 1);
+        ops.push(list(vec![atom(*rng.pick(&["I", "I", "D", "U"])), num(ua), num(ub)]));
+        ops.push(list(vec![atom(*rng.pick(&["I", "D"])), num(ia), num(if rng.chance(1, 2) { ia } else { nb })]));
     }
     for _ in 0..steps {
         let n = ops.len();
@@ -75,6 +98,8 @@ fn mk(a: &Sx) -> SemType {
             "s" => SemTypeContext::string_const(StringLitOrFormat::Tpl(TplLitType(vec![TplLitTypeItem::StringConst(v[1].as_str().to_string())]))),
             "n" => SemTypeContext::number_const(NumberRepresentationOrFormat::Lit(N::parse_int(v[1].as_usize() as i64))),
             "b" => SemTypeContext::boolean_const(v[1].as_atom() == "true"),
+            "o" => SemTypeContext::mapping_definition_from_idx(v[1].as_usize()),
+            "l" => SemTypeContext::list_definition_from_idx(v[1].as_usize()),
             _ => panic!("bad atom"),
         },
         _ => panic!("bad atom"),
@@ -90,8 +115,11 @@ enum V {
     Undef,
     Absent,
     Other,
+    Obj(u8),
+    Lst(u8),
 }
-const SAMPLES: &[V] = &[V::B(true), V::B(false), V::N(0), V::N(1), V::N(2), V::N(7), V::S("a"), V::S("b"), V::S("c"), V::S("zz"), V::Null, V::Undef, V::Absent, V::Other];
+const SAMPLES: &[V] = &[V::B(true), V::B(false), V::N(0), V::N(1), V::N(2), V::N(7), V::S("a"), V::S("b"), V::S("c"), V::S("zz"), V::Null, V::Undef, V::Absent, V::Other,
+    V::Obj(0), V::Obj(1), V::Obj(2), V::Obj(3), V::Obj(4), V::Obj(5), V::Obj(6), V::Obj(7), V::Lst(0), V::Lst(1), V::Lst(2), V::Lst(3)];
 
 fn tag_of(v: V) -> SubTypeTag {
     match v {
@@ -102,6 +130,8 @@ fn tag_of(v: V) -> SubTypeTag {
         V::Undef => SubTypeTag::VoidUndefined,
         V::Absent => SubTypeTag::OptionalProp,
         V::Other => SubTypeTag::BigInt,
+        V::Obj(_) => SubTypeTag::Mapping,
+        V::Lst(_) => SubTypeTag::List,
     }
 }
 
@@ -123,11 +153,52 @@ fn mem(t: &SemType, v: V) -> bool {
             (ProperSubtype::String { allowed, values }, V::S(x)) => {
                 values.iter().any(|k| matches!(k, StringLitOrFormat::Tpl(TplLitType(items)) if items.len() == 1 && items[0] == TplLitTypeItem::StringConst(x.to_string()))) == *allowed
             }
+            (ProperSubtype::Mapping(b), V::Obj(m)) => eval_bdd(b, &|a| matches!(a, Atom::Mapping(i) if (m >> i) & 1 == 1)),
+            (ProperSubtype::List(b), V::Lst(m)) => eval_bdd(b, &|a| matches!(a, Atom::List(i) if (m >> i) & 1 == 1)),
             (ProperSubtype::VoidUndefined { allowed, values }, V::Undef) => values.iter().any(|k| matches!(k, VoidUndefinedSubtype::Undefined)) == *allowed,
             _ => false,
         };
     }
     false
+}
+
+fn eval_bdd(b: &Bdd, rho: &dyn Fn(&Atom) -> bool) -> bool {
+    match b {
+        Bdd::True => true,
+        Bdd::False => false,
+        Bdd::Node { atom, left, middle, right } => (rho(atom) && eval_bdd(left, rho)) || eval_bdd(middle, rho) || (!rho(atom) && eval_bdd(right, rho)),
+    }
+}
+
+/// a structural tag as `all` / `none` / the truth table of its diagram over the atoms of the tag (a diagram that denotes
+/// everything or nothing prints like the whole / absent tag: how a collapsed diagram is stored is not compared)
+fn show_structural(t: &SemType, name: &str, tag: SubTypeTag, natoms: u8) -> Sx {
+    if (t.all & tag.code()) != 0 {
+        return list(vec![atom(name), atom("all")]);
+    }
+    for st_ in t.subtype_data.iter() {
+        if st_.tag() != tag {
+            continue;
+        }
+        let table: String = (0..(1u8 << natoms))
+            .map(|m| {
+                let ok = match &**st_ {
+                    ProperSubtype::Mapping(b) => eval_bdd(b, &|a| matches!(a, Atom::Mapping(i) if (m >> i) & 1 == 1)),
+                    ProperSubtype::List(b) => eval_bdd(b, &|a| matches!(a, Atom::List(i) if (m >> i) & 1 == 1)),
+                    _ => false,
+                };
+                if ok { '1' } else { '0' }
+            })
+            .collect();
+        if table.chars().all(|c| c == '1') {
+            return list(vec![atom(name), atom("all")]);
+        }
+        if table.chars().all(|c| c == '0') {
+            return list(vec![atom(name), atom("none")]);
+        }
+        return list(vec![atom(name), list(vec![atom("tt"), st(&table)])]);
+    }
+    list(vec![atom(name), atom("none")])
 }
 
 fn show(t: &SemType) -> Sx {
@@ -163,8 +234,8 @@ fn show(t: &SemType) -> Sx {
     tri("vu", SubTypeTag::VoidUndefined, &mut out);
     out.push(list(vec![atom("null"), atom(if bit(SubTypeTag::Null) { "all" } else { "none" })]));
     out.push(list(vec![atom("opt"), atom(if bit(SubTypeTag::OptionalProp) { "all" } else { "none" })]));
-    out.push(list(vec![atom("mapping"), atom(if bit(SubTypeTag::Mapping) { "all" } else { "none" })]));
-    out.push(list(vec![atom("list"), atom(if bit(SubTypeTag::List) { "all" } else { "none" })]));
+    out.push(show_structural(t, "mapping", SubTypeTag::Mapping, 3));
+    out.push(show_structural(t, "list", SubTypeTag::List, 2));
     out.push(list(vec![atom("other"), atom(if n_other == others.len() { "all" } else if n_other == 0 { "none" } else { "mixed" })]));
     // entries of the vector must be sorted by tag and unique (the merge relies on it)
     let codes: Vec<u32> = t.subtype_data.iter().map(|s| s.to_code()).collect();
